@@ -19,15 +19,19 @@ import (
 )
 
 type task struct {
-	label    string
-	ch       chan struct{}
-	site     string
-	spawn    int
-	until    int  // fault actors: not eligible before this step (0 = always eligible)
-	waiter   bool // parked in WaitStep
-	prio     int64
-	hasPrio  bool
-	stagnant bool // last pick of this task revisited a (task,site) pair
+	label        string
+	ch           chan struct{}
+	site         string
+	spawn        int
+	until        int  // fault actors: not eligible before this step (0 = always eligible)
+	waiter       bool // parked in WaitStep
+	prio         int64
+	hasPrio      bool
+	stagnant     bool // the task has revisited (task,site) pairs several times in a row: it is polling
+	repeat       int  // consecutive picks of this task that came back to one of its last few sites
+	recent       [4]string
+	recentN      int
+	delayChecked bool // delay bounding has been decided for this freshly started task
 }
 
 // Verdict of a simulated run.
@@ -65,7 +69,8 @@ type Config struct {
 	JumpProb  float64 // probability per decision of an F-clock jump (0 = never)
 	Jumps     []time.Duration
 	Trace     bool
-	Record    bool // record decisions
+	Record    bool    // record decisions
+	DelayProb float64 // probability that a freshly started goroutine is held back for 20-420 decisions
 }
 
 type Sim struct {
@@ -79,6 +84,7 @@ type Sim struct {
 	Switches int
 	Advances int
 	JumpsN   int
+	Delayed  int
 	MaxTasks int
 	Hash     uint64
 	Diverged bool
@@ -653,6 +659,26 @@ func (s *Sim) Run(root func()) (verdict Verdict) {
 				c[j], c[j-1] = c[j-1], c[j]
 			}
 		}
+		// delay bounding: a goroutine that has just been started may be held back for a while (its `go`
+		// statement returned long ago, the goroutine has not run yet). Decided here, by the scheduler, in
+		// label order, so that the draws from the PRNG are deterministic.
+		if s.cfg.DelayProb > 0 {
+			delayed := false
+			for _, t := range c {
+				if t.site == "spawn" && !t.delayChecked {
+					t.delayChecked = true
+					if s.rng.float() < s.cfg.DelayProb {
+						t.until = s.Steps + 20 + s.rng.intn(400)
+						s.Delayed++
+						delayed = true
+					}
+				}
+			}
+			if delayed {
+				s.mu.Unlock()
+				continue
+			}
+		}
 		// decision
 		k, replayed := s.nextDecision(n)
 		if !replayed {
@@ -701,18 +727,35 @@ func (s *Sim) Run(root func()) (verdict Verdict) {
 		if _, seen := s.novel[key]; !seen {
 			s.novel[key] = struct{}{}
 			s.stagn = 0
-			t.stagnant = false
 			if _, e := s.ever[key]; !e {
 				s.ever[key] = struct{}{}
 				s.delta = time.Microsecond
 			}
 		} else {
 			s.stagn++
-			t.stagnant = true
-			if t.hasPrio { // PCT: a spinning task yields the processor
-				s.minPrio--
-				t.prio = s.minPrio
+		}
+		// Is this task polling? A polling loop goes round two or three sites; ordinary code also comes back
+		// to a site (a second State.Set, the next loop iteration) but not within its last few picks. Only a
+		// task that has done that several times in a row is treated as spinning: demoting on the first
+		// repeat turned PCT into round robin (a low-priority task was never starved for long).
+		inRecent := false
+		for _, r := range t.recent {
+			if r == t.site {
+				inRecent = true
 			}
+		}
+		t.recent[t.recentN%len(t.recent)] = t.site
+		t.recentN++
+		if inRecent {
+			t.repeat++
+		} else {
+			t.repeat = 0
+		}
+		t.stagnant = t.repeat >= 6
+		if t.hasPrio && t.repeat >= 6 { // PCT: a spinning task yields the processor
+			s.minPrio--
+			t.prio = s.minPrio
+			t.repeat = 0
 		}
 		if t.label != s.lastLbl {
 			s.Switches++
